@@ -8,6 +8,7 @@ import (
 	"sync"
 	"sync/atomic"
 	"testing"
+	"time"
 
 	"github.com/lightninglabs/lightning-node-connect/mailbox"
 
@@ -224,6 +225,110 @@ func TestC16(t *testing.T) {
 		r.Sample(map[string]any{"kind": "handshake", "case": hjobs[len(hjobs)/2].c.String(), "fragmentation": hjobs[len(hjobs)/2].label})
 	}
 
+	// ---------------- readers: coalescing. On a stream transport the last
+	// act a side reads can arrive in the same read as the peer's first
+	// record; the handshake must consume exactly its own bytes.
+	for _, c := range cfgs {
+		c := c
+		for _, msgLen := range []int{0, 5, 300} {
+			atomic.AddInt64(&evals, 1)
+			label := fmt.Sprintf("%v: the last handshake act and the following %d-byte record delivered in one piece", c, msgLen)
+			ini, rsp := c.parties()
+			ri, rr := &partyResult{}, &partyResult{}
+			ri.connData, rr.connData = ini.connData(ri), rsp.connData(rr)
+			mk := func(p party, res *partyResult, initiator bool) *mailbox.Machine {
+				m, err := mailbox.NewBrontideMachine(&mailbox.BrontideMachineConfig{
+					ConnData: res.connData, Initiator: initiator, HandshakePattern: p.pattern(),
+					MinHandshakeVersion: p.min, MaxHandshakeVersion: p.max, EphemeralGen: ephGen(p.ephTag),
+				})
+				if err != nil {
+					ev.Framework("%v", err)
+				}
+				return m
+			}
+			mi, mr := mk(ini, ri, true), mk(rsp, rr, false)
+			d := newDuplex()
+			// the side that writes the last act also writes the record
+			lastWriter, lastReader := mi, mr
+			wSide, rSide := d.I, d.R
+			p := d.i2r
+			lastIdx := 1 // XX: act three is the initiator's second write
+			if c.kk {
+				lastWriter, lastReader, wSide, rSide, p, lastIdx = mr, mi, d.R, d.I, d.r2i, 0
+			}
+			var held []byte
+			p.edit = func(idx int, ch []byte) ([][]byte, bool) {
+				switch {
+				case idx < lastIdx:
+					return [][]byte{ch}, false
+				case idx < lastIdx+2: // the act, then the record header
+					held = append(held, ch...)
+					return nil, false
+				default: // the record body: deliver everything at once
+					all := append(append([]byte{}, held...), ch...)
+					return [][]byte{all}, false
+				}
+			}
+			msg := authPayload(msgLen)
+			if msg == nil {
+				msg = []byte{}
+			}
+			type res struct {
+				err error
+				got []byte
+			}
+			wc, rc := make(chan res, 1), make(chan res, 1)
+			go func() {
+				if err := lastWriter.DoHandshake(wSide); err != nil {
+					wSide.Close()
+					wc <- res{err: err}
+					return
+				}
+				if err := lastWriter.WriteMessage(msg); err != nil {
+					wc <- res{err: err}
+					return
+				}
+				_, err := lastWriter.Flush(wSide)
+				wc <- res{err: err}
+			}()
+			go func() {
+				if err := lastReader.DoHandshake(rSide); err != nil {
+					rSide.Close()
+					rc <- res{err: fmt.Errorf("handshake: %v", err)}
+					return
+				}
+				got, err := lastReader.ReadMessage(rSide)
+				rc <- res{err: err, got: got}
+			}()
+			var w, rd res
+			select {
+			case w = <-wc:
+			case <-time.After(10 * time.Second):
+				w.err = fmt.Errorf("writer did not finish")
+			}
+			select {
+			case rd = <-rc:
+			case <-time.After(3 * time.Second):
+				rd.err = fmt.Errorf("the reader is still waiting for the record (its bytes were consumed by the handshake)")
+				d.I.Close()
+				d.R.Close()
+			}
+			pat := "XX"
+			if c.kk {
+				pat = "KK"
+			}
+			if w.err != nil || rd.err != nil || !bytes.Equal(rd.got, msg) {
+				r.Violation("handshake-depends-on-fragmentation/"+pat+"/coalesced",
+					fmt.Sprintf("%s: writer err=%v, reader err=%v, %d of %d record bytes read", label, w.err, rd.err, len(rd.got), len(msg)),
+					map[string]any{"case": c.String(), "fragmentation": label})
+				continue
+			}
+			atomic.AddInt64(&nontrivial, 1)
+			note("handshake-coalesced-ok")
+		}
+	}
+	r.Sample(map[string]any{"kind": "coalesced", "case": cfgs[0].String(), "delivery": "act three + record header + record body in one piece"})
+
 	// ---------------- readers: records under fragmentation
 	// (one fresh pair per pattern family: uniform k, 2-way, 3-way)
 	recordFrag := func(n int, label string, maxRead int, cuts []int) {
@@ -387,7 +492,7 @@ func TestC16(t *testing.T) {
 	r.Set("handshake_fragmentations", len(hjobs))
 	r.Set("record_fragmentations", len(rjobs))
 	r.Set("partial_write_scripts", len(wjobs))
-	r.Set("rule", "handshakes (XX v0, XX v2, KK) with every uniform maximal read size 1..longest act, every two-way cut of every act and every three-way cut (all pairs for acts <= 120 bytes, pairs of field-boundary offsets and every 37th offset for longer ones); records of 0,1,5,100 bytes read under every uniform read size and every two-way (three-way for <= 5 bytes) cut; every two- and three-way partition of the wire bytes of records of 0,1,5,40 bytes into partial writes separated by timeout errors, with Flush repeated and WriteMessage attempted in between. distinct_nontrivial = fragmented cases that behaved identically to the unfragmented run")
+	r.Set("rule", "handshakes (XX v0, XX v2, KK) with the last act delivered coalesced with the following record (0/5/300 bytes), with every uniform maximal read size 1..longest act, every two-way cut of every act and every three-way cut (all pairs for acts <= 120 bytes, pairs of field-boundary offsets and every 37th offset for longer ones); records of 0,1,5,100 bytes read under every uniform read size and every two-way (three-way for <= 5 bytes) cut; every two- and three-way partition of the wire bytes of records of 0,1,5,40 bytes into partial writes separated by timeout errors, with Flush repeated and WriteMessage attempted in between. distinct_nontrivial = fragmented cases that behaved identically to the unfragmented run")
 	r.Set("exhaustive", true)
 	exitCode = r.Finish()
 }
